@@ -98,6 +98,15 @@ Definition is_bits_op (op : string) : bool := existsb (String.eqb op) bits_ops.
 Definition rel_ops : list string := ["$eq"; "$gt"; "$gte"; "$lt"; "$lte"].
 Definition is_rel_op (op : string) : bool := existsb (String.eqb op) rel_ops.
 
+(* Inside $elemMatch a condition is evaluated on one array element: "as a
+   document for field conditions, as a value for operator conditions".  Both
+   readings are obtained by presenting the element as the single field `item`
+   of a one-field document: an operator condition addresses `item`, a field
+   condition on k addresses `item.k`.  (rlookup (elem_root e) (elem_path ++ p)
+   = rlookup e p: Proofs/MatchRef.v, elem_root_lookup.) *)
+Definition elem_root (e : value) : value := VDoc [("item", e)].
+Definition elem_path : path := ["item"].
+
 Definition ok_true (r : res bool) : bool := match r with Ok true => true | _ => false end.
 
 (* ------------------------------------------------------------------ *)
@@ -191,8 +200,8 @@ Fixpoint ref_op (x : value) (op : string) (root : value) (p : path) {struct x} :
                          match q with
                          | [] => true
                          | (k, y) :: t =>
-                             (if is_op k then ref_op y k e []
-                              else ref_field ref_op y e (split_path k)) && go t
+                             (if is_op k then ref_op y k (elem_root e) elem_path
+                              else ref_field ref_op y (elem_root e) (elem_path ++ split_path k)) && go t
                          end) q) es
              | _ => false
              end)
@@ -392,7 +401,7 @@ Fixpoint core_op (full : bool) (x : value) (op : string) (root : value) (p : pat
     | _ => false
     end
   else if String.eqb op "$elemMatch" then
-    full && negb fan &&
+    negb fan &&
     match x with
     | VDoc [] => false
     | VDoc q =>
@@ -406,8 +415,8 @@ Fixpoint core_op (full : bool) (x : value) (op : string) (root : value) (p : pat
                          match q with
                          | [] => true
                          | (k, y) :: t =>
-                             (if is_op k then core_op full y k e []
-                              else core_field (core_op full) y e (split_path k)) && go t
+                             (if is_op k then core_op full y k (elem_root e) elem_path
+                              else core_field (core_op full) y (elem_root e) (elem_path ++ split_path k)) && go t
                          end) q) es
              | _ => true
              end) (rlookup root p)
@@ -444,12 +453,11 @@ Definition core_filter (full : bool) (root : value) (f : doc) : bool :=
      | (k, y) :: t => core_top full y k root && go t
      end) f.
 
-(* full = true: the whole core domain (every operator except $jsonSchema);
-   full = false: the part covered by the proof match_ref_partial (no
-   $elemMatch) *)
+(* `full` is a historical switch (it used to exclude the operators not yet
+   covered by the proof); no clause depends on it any more *)
 Definition coreb_gen (full : bool) (d f : doc) : bool :=
   d1 (VDoc d) && d3 (VDoc d) && core_filter full (VDoc d) f.
 
-Definition coreb (d f : doc) : bool := coreb_gen true d f.
+Definition coreb (d f : doc) : bool := coreb_gen false d f.
 Definition core (d f : doc) : Prop := coreb d f = true.
 Definition core_covered (d f : doc) : Prop := coreb_gen false d f = true.
